@@ -27,7 +27,7 @@ static std::vector<std::string> vocab_core() {  // 29 kinds/spellings: the langu
 }
 static std::vector<std::string> vocab_full() {
   std::vector<std::string> v = vocab_core();
-  for (auto s : {"DEFINE", "AS", "ENDDEF", "PRIO", "<P>", "<ID>", "<INT>", "<A>", "$7", ")", "INCLUDE", "\"f\"", "\"nofile\"", "2147483647", "foo"}) v.push_back(s);
+  for (auto s : {"DEFINE", "AS", "ENDDEF", "PRIO", "<P>", "<ID>", "<INT>", "<A>", "$7", ")", "INCLUDE", "\"f\"", "\"nofile\"", "2147483647", "foo", "__INC__", "__DEC__", "f"}) v.push_back(s);
   return v;
 }
 static std::string join(const std::vector<std::string> &t) { std::string o; for (size_t i = 0; i < t.size(); i++) { if (i) o += " "; o += t[i]; } return o; }
@@ -337,8 +337,8 @@ int main(int argc, char **argv) {
     }
   } else if (args.prop == "C04") {
     o = oracle_C04;
-    L = {fam_sigma(vocab_core(), 3, "core-vocabulary"), fam_edits(seeds(), vocab_core(), 0, "seeds:1-edits"), fam_spellings(seeds()), fam_literal_boundary(seeds()), fam_sentences(8, 5), fam_multi_del(seeds()), fam_sigma(vocab_core(), 4, "core-vocabulary")};
-    if (T) { L.push_back(fam_sentences(10, 7)); L.push_back(fam_edits(seeds(), vocab_core(), 8, "seeds:2-edits of seeds<=8 tokens")); L.push_back(fam_sigma(vocab_core(), 5, "core-vocabulary")); }
+    L = {fam_sigma(vocab_core(), 3, "core-vocabulary"), fam_edits(seeds(), vocab_core(), 0, "seeds:1-edits"), fam_spellings(seeds()), fam_literal_boundary(seeds()), fam_sentences(9, 5), fam_multi_del(seeds()), fam_sigma(vocab_core(), 4, "core-vocabulary")};
+    if (T) { L.push_back(fam_sentences(11, 7)); L.push_back(fam_edits(seeds(), vocab_core(), 8, "seeds:2-edits of seeds<=8 tokens")); L.push_back(fam_sigma(vocab_core(), 5, "core-vocabulary")); }
   } else { fprintf(stderr, "ERROR: unknown property %s\n", args.prop.c_str()); return 2; }
   return drv::run<Case>(args, L, o, {}, limit);
 }
